@@ -9,6 +9,15 @@ TB = ("trusted base: rustc's MIR construction and Instance resolution for the re
       "mir-opt-level 0, overflow checks on), the fact extractor /verif/driver, std/rpds/arcstr behaving as documented")
 
 CLAIMS = {
+ 'C16': dict(
+   technique="MIR natural-loop progress analysis (cycle-without-advance search) + who-may-write on Lex fields (custom extractor, Python rules)",
+   text=("Static, all inputs: decides totality and tiling, not literal values. Lex.pos is written only by take_char (+len_utf8 of the char "
+         "peeked at pos) and new; start_pos only at entry of next; last_substr is start_pos..pos - so tokens are adjacent, non-overlapping and on "
+         "char boundaries. In each of the natural loops of lex.rs every cycle passes an advancing step that is guaranteed to have advanced "
+         "(None leaves the loop / guarded by a successful peek), and every non-EndOfInput token of next lies behind a take_char that returned "
+         "Some - a ranking-function argument for termination of every token stream. Not decided: numeric/escape/bit-string literal values, "
+         "print/read round trips."),
+   ref='§3 C16'),
  'C15': dict(
    technique="MIR control-dependence regions of is_recording() + effect scan; sibling-signature diff of run/next and eval/compile (custom extractor, Python rules)",
    text=("Static: equality of results across drive modes is value-level and not decided as such; its two mechanisms are. R1 every block "
